@@ -73,7 +73,46 @@ func strEq(a, b StrV) string {
 			return "false"
 		}
 	}
+	if a.K == SOpaque && b.K == SOpaque {
+		if r, ok := concatEq(a.T, b.T); ok {
+			return r
+		}
+	}
 	return tEq(a.term(), b.term())
+}
+
+// concatEq simplifies equality of two concatenations that start with literal pieces: different
+// literal prefixes make them unequal, equal ones are cancelled.
+func concatEq(a, b string) (string, bool) {
+	la, lb := flattenConcat(a), flattenConcat(b)
+	if len(la) < 2 && len(lb) < 2 {
+		return "", false
+	}
+	for len(la) > 0 && len(lb) > 0 && strings.HasPrefix(la[0], "\"") && strings.HasPrefix(lb[0], "\"") {
+		sa, sb := parseSMTString(la[0]), parseSMTString(lb[0])
+		switch {
+		case sa == sb:
+			la, lb = la[1:], lb[1:]
+		case strings.HasPrefix(sa, sb):
+			la = append([]string{smtStrLit(sa[len(sb):])}, la[1:]...)
+			lb = lb[1:]
+		case strings.HasPrefix(sb, sa):
+			lb = append([]string{smtStrLit(sb[len(sa):])}, lb[1:]...)
+			la = la[1:]
+		default:
+			return "false", true
+		}
+	}
+	join := func(l []string) string {
+		switch len(l) {
+		case 0:
+			return `""`
+		case 1:
+			return l[0]
+		}
+		return "(str.++ " + strings.Join(l, " ") + ")"
+	}
+	return tEq(join(la), join(lb)), true
 }
 
 func strConcat(a, b StrV) StrV {
